@@ -318,8 +318,16 @@ fn xml_style_comments_parser(
         Box::new(move |node, source_code| {
             if node.kind() == comment_node_kind {
                 let comment = &source_code[node.byte_range()];
-                let open_idx = comment.find("<!--").expect("open comment tag is expected");
-                let close_idx = comment.rfind("-->").expect("close comment tag is expected");
+                // Degenerate comment nodes (e.g. produced by error recovery on unterminated or
+                // overlapping delimiters like "<!-->") are kept as is.
+                let (Some(open_idx), Some(close_idx)) =
+                    (comment.find("<!--"), comment.rfind("-->"))
+                else {
+                    return Some(comment.to_string());
+                };
+                if close_idx < open_idx + 4 {
+                    return Some(comment.to_string());
+                }
                 let mut result = String::with_capacity(comment.len());
                 result.push_str(&comment[..open_idx]);
                 // Replace "<!--" with spaces.
@@ -337,9 +345,15 @@ fn xml_style_comments_parser(
 }
 
 fn c_style_multiline_comment_processor(comment: &str) -> String {
+    // Degenerate comment nodes (e.g. produced by error recovery on unterminated or overlapping
+    // delimiters like "/*/") are kept as is.
+    let (Some(open_idx), Some(close_idx)) = (comment.find("/*"), comment.rfind("*/")) else {
+        return comment.to_string();
+    };
+    if close_idx < open_idx + 2 {
+        return comment.to_string();
+    }
     let mut result = String::with_capacity(comment.len());
-    let open_idx = comment.find("/*").expect("expected '/*' in a comment");
-    let close_idx = comment.rfind("*/").expect("expected '*/' in a comment");
     // Add everything before the "/*"
     result.push_str(&comment[..open_idx]);
     // Replace "/*" with spaces.
